@@ -33,10 +33,16 @@ All fitters of a case (per-file, per-file use_memmap, cube memmap off / on, and 
 memory-mapped fitter on another cube package of the same shape) are built first and stay alive together; the fits are
 then made in a shuffled order.
 
+Before the fitters are built, some or all convolved files and / or parameters.fits of both packages may be gzipped in
+place (only `<name>.fits.gz` left).  Distance-dependent cases may fit with `remove_resolved=True` (all variants;
+fluxes growing with aperture so that the option removes part, all or none of the distance range of a model); the
+variants must agree as always.
+
 Model side: driver `ordermatch` (= `sortToMatch`) on (SED names in directory-listing order, table
 names) predicts which listing position lands in which row; `convnames 1|2` (= `convolveV1/V2` on tagged
 SEDs) predicts names and row contents of both formats (driver op `convnames`).
 """
+import gzip
 import itertools
 import os
 import shutil
@@ -64,7 +70,8 @@ REQUIRED_BRANCHES = ['perfile', 'cube', 'conv_memmap_on', 'conv_memmap_off', 'fi
                      'no_apertures', 'unit_sed_mJy', 'unit_sed_Jy', 'unit_sed_erg', 'unit_cube_mJy', 'unit_cube_Jy',
                      'perfile_fit_memmap_on', 'cube_table_permuted', 'cube_table_same_order',
                      'cube_val_unc_units_differ', 'sed_flux_err_units_differ',
-                     'fitters_alive_together', 'second_memmap_fitter_other_package', 'fit_aperture_dependent', 'fit_aperture_independent', 'multi_aperture_fit_aperture_independent',
+                     'fitters_alive_together', 'second_memmap_fitter_other_package', 'convolved_gz', 'parameters_gz',
+                     'remove_resolved_on', 'remove_resolved_changes_fit', 'fit_aperture_dependent', 'fit_aperture_independent', 'multi_aperture_fit_aperture_independent',
                      'cube_table_accepted_rows_checked_or_refused',
                      'staged_history', 'staged_history_unsorted_table', 'stage_write_parameters',
                      'stage_write_parameter_ranges', 'stage_extract_parameters',
@@ -185,6 +192,13 @@ def gen_case(rng, n=None, table_perm=None, directed=None):
     if directed.get('no_aps', nap == 1 and rng.random() < 0.4):
         nap, aps = 1, None
     ap_dep = directed.get('apdep', None if (nap == 1 or rng.random() < 0.6) else False)
+    # remove_resolved=True fits (distance-dependent packages only): geometric aperture grid, fluxes growing with
+    # aperture (constant surface brightness out to aperture j_m of model m, nearly flat beyond), so that the
+    # half-peak surface-brightness radius falls inside / across / beyond the range of requested apertures
+    resolved = bool(directed.get('resolved', nap > 1 and ap_dep is None and rng.random() < 0.5))
+    if resolved:
+        a0 = nice(rng, 50., 2000., 3)
+        aps = [float('%.5g' % (a0 * 1.5 ** k)) for k in range(nap)]
     # stored flux units: per-file SEDs in mJy, Jy or erg/cm2/s (nu F_nu); the cube in mJy or Jy
     unit_sed = directed.get('unit_sed', rng.choice(['mJy', 'mJy', 'Jy', 'erg/cm2/s']))
     unit_cube = directed.get('unit_cube', rng.choice(['mJy', 'Jy']))
@@ -216,24 +230,36 @@ def gen_case(rng, n=None, table_perm=None, directed=None):
                 out[m][a] = vals[m]
         return out
     c = consts(0.05, 500.)
+    if resolved:
+        for m in range(n):
+            jm = rng.randint(0, min(nap - 1, 2))
+            for a in range(1, nap):
+                c[m][a] = float('%.6g' % (c[m][0] * (aps[a] / aps[0]) ** 2 if a <= jm else c[m][a - 1] * 1.03))
     e = consts(0.005, 50.)
     src = dict(model=rng.randrange(n), fac=[float('%.3g' % (10 ** rng.uniform(-0.15, 0.15))) for _ in range(nf)],
                rel=[nice(rng, 0.08, 0.3, 2) for _ in range(nf)])
+    stage = directed.get('stage', rng.choice([None, None, 'write_parameters', 'write_parameter_ranges', 'extract_parameters']))
+    gz_par = directed.get('gz_par', rng.random() < 0.3)
+    if gz_par and not stage:        # somebody has to read the gzipped parameter table
+        stage = rng.choice(['write_parameters', 'write_parameter_ranges', 'extract_parameters'])
     return dict(names=names, stems=stems, listing=listing, table=table_names, cube=cube, nap=nap, aps=aps, wav=wav,
                 sed_store=directed.get('sed_store', rng.choice(['nu_inc', 'nu_dec'])),
                 cube_store=directed.get('cube_store', rng.choice(['nu_inc', 'nu_dec'])),
                 g=g, h=h, c=c, e=e, tilt=tilt, etilt=etilt, general=general, filters=filters, src=src, av=[0., 40.],
-                stage=directed.get('stage', rng.choice([None, None, 'write_parameters', 'write_parameter_ranges', 'extract_parameters'])),
-                apdep=ap_dep, second_pkg=directed.get('second_pkg', rng.random() < 0.5),
+                stage=stage,
+                resolved=resolved, gz_conv=directed.get('gz_conv', rng.choice(['none', 'none', 'some', 'all'])),
+                gz_par=gz_par, apdep=ap_dep, second_pkg=directed.get('second_pkg', rng.random() < 0.5),
                 fit_order=rng.sample([0, 1, 2, 3], 4), flat=flat, unit_sed=unit_sed, unit_cube=unit_cube, unit_sed_err=unit_sed_err, unit_cube_unc=unit_cube_unc,
                 cube_table=cube_table)
 
 
 DIRECTED = [
-    dict(n=1, nap=1, nf=2, flat=True, sed_store='nu_inc', cube_store='nu_dec', pad=True, stage='write_parameters', no_aps=True, unit_sed='Jy', unit_cube='mJy', unit_sed_err='mJy', unit_cube_unc='Jy', cube_perm=True),
-    dict(n=8, nap=5, nf=3, flat=False, general=True, stage='write_parameters', second_pkg=True, sed_store='nu_dec', cube_store='nu_inc', pad=True, name30=True, subdir=True),
+    dict(n=6, nap=4, nf=3, flat=True, resolved=True, sed_store='nu_inc', cube_store='nu_dec', pad=True, gz_conv='none', gz_par=False, second_pkg=True),
+    dict(n=5, nap=3, nf=2, flat=False, general=True, resolved=True, sed_store='nu_dec', cube_store='nu_inc', pad=False, gz_conv='some', gz_par=False),
+    dict(n=1, nap=1, nf=2, flat=True, gz_conv='all', gz_par=True, sed_store='nu_inc', cube_store='nu_dec', pad=True, stage='write_parameters', no_aps=True, unit_sed='Jy', unit_cube='mJy', unit_sed_err='mJy', unit_cube_unc='Jy', cube_perm=True),
+    dict(n=8, nap=5, nf=3, flat=False, general=True, stage='write_parameters', second_pkg=True, resolved=True, gz_conv='some', gz_par=True, sed_store='nu_dec', cube_store='nu_inc', pad=True, name30=True, subdir=True),
     dict(n=3, nap=1, nf=3, flat=True, sed_store='nu_dec', cube_store='nu_dec', pad=False, name30=True, stage='write_parameter_ranges', no_aps=True, unit_sed='erg/cm2/s', unit_cube='Jy', unit_sed_err='Jy', unit_cube_unc='mJy', cube_perm=True),
-    dict(n=4, nap=2, nf=2, flat=False, general=False, sed_store='nu_inc', cube_store='nu_inc', pad=True, stage='extract_parameters', subdir=True, unit_sed='erg/cm2/s', unit_cube='mJy', unit_sed_err='erg/cm2/s', unit_cube_unc='mJy', cube_perm=True),
+    dict(n=4, nap=2, nf=2, flat=False, general=False, resolved=True, gz_conv='all', gz_par=True, sed_store='nu_inc', cube_store='nu_inc', pad=True, stage='extract_parameters', subdir=True, unit_sed='erg/cm2/s', unit_cube='mJy', unit_sed_err='erg/cm2/s', unit_cube_unc='mJy', cube_perm=True),
     dict(n=5, nap=3, nf=2, flat=True, sed_store='nu_dec', cube_store='nu_inc', pad=True, subdir=True, apdep=False),
     dict(n=2, nap=4, nf=3, flat=False, general=True, sed_store='nu_inc', cube_store='nu_dec', pad=False, apdep=False, second_pkg=True),
     dict(n=5, nap=1, nf=2, flat=False, general=True, sed_store='nu_dec', cube_store='nu_dec', pad=True, no_aps=False, unit_sed='Jy', unit_cube='Jy', unit_sed_err='erg/cm2/s', unit_cube_unc='mJy', cube_perm=True),
@@ -536,11 +562,38 @@ def check_file(case, tab, via, expect_names, fname, filt, what, scale=1.):
     return fails, ident
 
 
-def build_fitter(case, d, fnames, use_memmap):
+def use_resolved(case):
+    return bool(case.get('resolved')) and apdep(case) and case['nap'] > 1
+
+
+def build_fitter(case, d, fnames, use_memmap, remove_resolved=None):
     nf = len(fnames)
     ext = pk.make_extinction(EXT_W, EXT_CHI)
-    arcsec = [(case['aps'][0] if case['aps'] else 1000.) * 1.3 / 1000.] * nf
-    return pk.make_fitter(d, fnames, arcsec, ext, case['av'], distance_range_kpc=(1., 2.), use_memmap=use_memmap)
+    rr = use_resolved(case) if remove_resolved is None else remove_resolved
+    # requested apertures (arcsec x distance): 1.05 .. 2.1 (resolved cases) or 1.3 .. 2.6 times the smallest tabulated one
+    arcsec = [(case['aps'][0] if case['aps'] else 1000.) * (1.05 if use_resolved(case) else 1.3) / 1000.] * nf
+    return pk.make_fitter(d, fnames, arcsec, ext, case['av'], distance_range_kpc=(1., 2.), use_memmap=use_memmap,
+                          remove_resolved=rr)
+
+
+def gzip_in_place(path):
+    with open(path, 'rb') as f, gzip.open(path + '.gz', 'wb') as g:
+        shutil.copyfileobj(f, g)
+    os.remove(path)
+
+
+def gzip_package_files(case, dirs, fnames, br):
+    """some or all convolved-flux files and / or the parameter table exist only as `.fits.gz` from here on"""
+    which = {'none': [], 'some': fnames[::2], 'all': list(fnames)}[case.get('gz_conv', 'none')]
+    for dd in dirs:
+        for fn in which:
+            gzip_in_place(os.path.join(dd, 'convolved', fn + '.fits'))
+        if case.get('gz_par'):
+            gzip_in_place(os.path.join(dd, 'parameters.fits'))
+    if which:
+        br.add('convolved_gz')
+    if case.get('gz_par'):
+        br.add('parameters_gz')
 
 
 def do_fit(case, fitter, fnames, src_flux):
@@ -739,6 +792,7 @@ def impl_side(case, d):
     row = v1[fnames[0]]['names'].index(names[sm]) if names[sm] in v1[fnames[0]]['names'] else 0
     src_flux = [float(v1[fn]['flux'][row][0]) * fac for fn, fac in zip(fnames, case['src']['fac'])]
     try:
+        gzip_package_files(case, [d1, d2], fnames, br)
         # all fitters of the case are built first and stay alive together; the fits follow in a shuffled order
         variants = [('per-file', d1, False), ('per-file use_memmap=True', d1, True), ('cube use_memmap=False', d2, False),
                     ('cube use_memmap=True', d2, True)]
@@ -751,7 +805,7 @@ def impl_side(case, d):
             # one more memory-mapped fitter, on ANOTHER package of the same shape, created after the first one
             d3 = os.path.join(d, 'cube_other')
             other_package(case, d2, d3, fnames, v2)
-            second = build_fitter(case, d3, fnames, True)
+            second = build_fitter(case, d3, fnames, True)        # (with remove_resolved it owns a second `extended` map)
             br.add('second_memmap_fitter_other_package')
         fitter = fitters['per-file']
         # largest |log10| of any model flux the fitter can see (all apertures; distances 1-2 kpc scale by <= 4)
@@ -765,6 +819,15 @@ def impl_side(case, d):
             do_fit(case, second, fnames, src_flux)
         ref = results['per-file']
         relaxed = 0
+        if use_resolved(case):
+            # how often does the option matter?  the same in-memory fit without it
+            br.add('remove_resolved_on')
+            plain = do_fit(case, build_fitter(case, d1, fnames, False, remove_resolved=False), fnames, src_flux)
+            if any(not (plain[k][1] == ref[k][1] and (plain[k][2] == ref[k][2] or abs(plain[k][2] - ref[k][2]) <= 1e-9 * abs(ref[k][2])))
+                   for k in ref):
+                br.add('remove_resolved_changes_fit')
+            if any(np.isinf(v[2]) for v in ref.values()):
+                br.add('remove_resolved_model_removed_everywhere')
         for what, dd, um in variants[1:]:
             if dd == d1:
                 br.add('perfile_fit_memmap_on')
@@ -781,7 +844,7 @@ def impl_side(case, d):
                     ta, ts, tc = tav, tsc, tchi(c0)
                 else:
                     ta, ts, tc = 1e-9 * (1. + abs(a0)), 1e-9 * (1. + abs(s0)), 1e-9 * (1. + abs(c0))
-                okc, oka, oks = abs(c0 - c1) <= tc, abs(a0 - a1) <= ta, abs(s0 - s1) <= ts
+                okc, oka, oks = (c0 == c1) or abs(c0 - c1) <= tc, abs(a0 - a1) <= ta, abs(s0 - s1) <= ts
                 if okc and oka and oks:
                     continue
                 if um and okc and apdep(case) and not oks:
